@@ -9,6 +9,8 @@ from .. import framework as fw
 from . import line_common as lc
 
 GEN_SECTIONS = ["Unicode", "Regexes", "Tables"]
+LEAVES = {'LoopDispatch': [], 'ComposeLoopDispatch': []}
+IMP = ['parseDataFromChartLines']  # functions dumped as terms of the imperative embedding, run against CPython on every run
 TRUSTED = [
     "Lean 4 kernel; axioms ⊆ {propext, Classical.choice, Quot.sound}",
     "translator: the nine recognisers and the recorded kind orders",
